@@ -78,6 +78,22 @@ def clash_check():
         s = lg.error(r.err())
         if "Later" not in s:
             return {"check": "resolution error inside a module does not name the type", "observed": s[:300], "scenario": "clash"}
+        # C11 (fixed F24): a module that imports another module with the same file name; a later error in the outer one is rendered
+        os.makedirs(os.path.join(d, "sub", "x"))
+        open(os.path.join(d, "sub", "m.fcp"), "w").write('version: "3"\nmod x.m;\nstruct P { a @0: u8, }\nstruct Q { b @0: u8, }\nstruct R { c @0: Nope, }\n')
+        open(os.path.join(d, "sub", "x", "m.fcp"), "w").write('version: "3"\nstruct Z { z @0: u8, }')
+        open(os.path.join(d, "root.fcp"), "w").write('version: "3"\nmod sub.m;\n')
+        lg = Logger({})
+        r = get_fcp(os.path.join(d, "root.fcp"), lg)
+        if r.is_ok():
+            return {"check": "unknown type inside a module accepted", "scenario": "clash"}
+        try:
+            s = lg.error(r.err())
+        except BaseException as e:
+            return {"check": "the error value cannot be rendered (two source files named m.fcp)", "observed": type(e).__name__ + ": " + str(e)[:200],
+                    "scenario": "clash"}
+        if "struct R { c @0: Nope, }" not in s:
+            return {"check": "diagnostic cites a line of the wrong source file", "observed": s[:300], "scenario": "clash"}
     except BaseException as e:
         return {"check": "an exception escaped", "observed": type(e).__name__ + ": " + str(e)[:200], "scenario": "clash"}
     finally:
@@ -147,4 +163,6 @@ if __name__ == "__main__":
         r = json.loads(sys.argv[2])
         print(json.dumps({"fails": (one(r["input"]) if "input" in r else (clash_check() if r.get("scenario") == "clash" else split_check())) is not None}))
     elif cmd == "witness":
-        print(json.dumps({"fails": False}))
+        # regression witnesses of repaired findings (known_findings.json "fixed" entries with a witness id)
+        f = clash_check() if sys.argv[2] == "F24" else None
+        print(json.dumps({"fails": f is not None, "failure": f}, default=str))
